@@ -169,3 +169,13 @@ func Lemma(name string, cond bool) {
 		panic(Failure{name})
 	}
 }
+
+// Closure0 names an anonymous function of the package under contract (for instance the comparator
+// literal "SortServicesByCreationTime$1") that captures nothing, so that a lemma can call it.
+func Closure0[F any](name string) F { panic(NotExecutable{"Closure0"}) }
+
+// Closure1 is Closure0 for a function literal that captures one variable, given here by value.
+func Closure1[F any, A any](name string, a A) F { panic(NotExecutable{"Closure1"}) }
+
+// Closure2 is Closure0 for a function literal that captures two variables (in order of capture).
+func Closure2[F any, A any, B any](name string, a A, b B) F { panic(NotExecutable{"Closure2"}) }
